@@ -3,16 +3,22 @@
 
   case   := "sql" DB " ; " STMT (" ; " STMT)*
   DB     := TABLE ("/" TABLE)*            one word, tables are t0, t1, … in this order
-  TABLE  := TYS "=" [ROW ("|" ROW)*]      TYS: one letter per column  I=INT B=BIGINT O=BOOL S=TEXT ; columns are c0, c1, …
+  TABLE  := TYS "=" [ROW ("|" ROW)*]      TYS: one letter per column  I=INT B=BIGINT O=BOOL S=TEXT D=DOUBLE ; columns are c0, c1, …
   ROW    := VAL ("," VAL)*
   VAL    := "n" | "i"<decimal> | "b0" | "b1" | "t"<hex of the bytes> | "t-" (empty text)
+          | "f"<IEEE-754 bits, decimal>        a DOUBLE (in D columns and as a literal compared with them; compare-only)
 
   STMT (space separated words, prefix notation, every operator has a fixed arity):
-    sel (all|distinct) F W g<k> E×k a<k> AGG×k P o<k> ORD×k lim(<n>|-) off(<n>|-)
+    sel (all|distinct) F W g<k> E×k a<k> AGG×k [hv E] P o<k> ORD×k lim(<n>|-) off(<n>|-)
         F   := t<k> | j (inner|left|right|full|cross) F F (- | on E)
+             | d F W p<k> E×k                   derived table (SELECT E×k FROM F [WHERE …]) AS r; its columns are c0 … c<k-1>
         W   := - | w E
-        AGG := cnt* | cnt E | sum E | avg E | min E | max E
-        P   := star | p<k> E×k                  (ignored when a<k> has k > 0: output = group keys ++ aggregates)
+        AGG := cnt* | cnt E | sum E | avg E | min E | max E | cntd E | sumd E | avgd E | mind E | maxd E   (…d = DISTINCT)
+        hv E: HAVING (optional word)
+        P   := star | p<k> E×k
+               In an aggregate query (g<k> or a<k> with k > 0) the columns c<i> of P and of HAVING are those of the
+               *aggregate row*: the k group keys, then the aggregates, in this order; `star` = the whole aggregate row.
+               The SQL text shows the key expression / the aggregate call in their place.
         ORD := a<pos> | d<pos>                  ascending / descending on output column <pos>
     ins t<k> r<n> E×(n·columns)
     upd t<k> s<m> (c<col> E)×m W
@@ -21,6 +27,9 @@
      | not E | neg E | pos E | and E E | or E E
      | eq|ne|lt|le|gt|ge E E | add|sub|mul|div|mod E E
      | like E E | nlike E E | isnull E | notnull E | btw E E E | nbtw E E E | in<k> E E×k | nin<k> E E×k
+     | case<k> (E E)×k (else E | noelse)            searched CASE: k pairs condition, result
+     | casex<k> E (E E)×k (else E | noelse)         simple CASE: operand, k pairs value, result
+     | upper E | lower E | length E | ltrim E | rtrim E | cat E E      string functions, `a || b`
 
   answer := OUT (" ; " OUT)*     one per statement
   OUT    := "Rset:" ROWS      no ORDER BY: rows in canonical (sorted) order
@@ -53,6 +62,7 @@ def toP : Expr → PExpr
   | .lit (.bool b) => .bool b
   | .lit (.text t) => .str t
   | .lit (.rat n _) => .num n
+  | .lit (.dbl _) => .null    -- decimal literals are not in the parser model: `reparse` leaves such expressions alone
   | .col i => .ident (99 :: (toString i).toList.map Char.toNat)
   | .not e => .un .not (toP e)
   | .neg e => .un .neg (toP e)
@@ -65,6 +75,10 @@ def toP : Expr → PExpr
   | .isNull neg e => .bin (if neg then .isnot else .is) (toP e) .null
   | .between neg e lo hi => .between neg (toP e) (toP lo) (toP hi)
   | .inList neg e xs => .inList neg (toP e) (toPList xs)
+  | .caseWhen _ => .null      -- not in the parser model: `reparse` leaves expressions with CASE alone
+  | .caseOf _ _ => .null
+  | .strFn _ _ => .null       -- function calls neither
+  | .concat a b => .bin .concat (toP a) (toP b)
 def toPList : List Expr → List PExpr
   | [] => []
   | e :: es => toP e :: toPList es
@@ -95,7 +109,7 @@ def fromP : PExpr → Option Expr
       | .like => some (.like false x y) | .notlike => some (.like true x y)
       | .is => (match y with | .lit .null => some (.isNull false x) | _ => none)
       | .isnot => (match y with | .lit .null => some (.isNull true x) | _ => none)
-      | .concat => none
+      | .concat => some (.concat x y)
     | _, _ => none
   | .between neg e lo hi =>
     match fromP e, fromP lo, fromP hi with
@@ -112,8 +126,22 @@ def fromPList : List PExpr → Option (List Expr)
     | _, _ => none
 end
 
+mutual
+def hasCase : Expr → Bool
+  | .caseWhen _ | .caseOf _ _ | .strFn _ _ | .lit (.dbl _) => true
+  | .not e | .neg e | .pos e | .isNull _ e => hasCase e
+  | .and a b | .or a b | .cmp _ a b | .arith _ a b | .like _ a b | .concat a b => hasCase a || hasCase b
+  | .between _ a b c => hasCase a || hasCase b || hasCase c
+  | .inList _ a xs => hasCase a || hasCaseList xs
+  | _ => false
+def hasCaseList : List Expr → Bool
+  | [] => false
+  | e :: es => hasCase e || hasCaseList es
+end
+
 /-- the tree the parser with table `T` builds from the minimal text of `e` (`e` itself if that fails) -/
 def reparse (T : Parser.Table) (e : Expr) : Expr :=
+  if hasCase e then e else
   match Parser.parseExpr T (Parser.body Parser.docTable (toP e)) with
   | some p => (fromP p).getD e
   | none => e
@@ -121,11 +149,13 @@ def reparse (T : Parser.Table) (e : Expr) : Expr :=
 def reparseFrom (T : Parser.Table) : From → From
   | .table t => .table t
   | .join k l r on => .join k (reparseFrom T l) (reparseFrom T r) (on.map (reparse T))
+  | .derived f w items => .derived (reparseFrom T f) (w.map (reparse T)) (items.map (reparse T))
 
 def reparseStmt (T : Parser.Table) : Stmt → Stmt
   | .select q => .select { q with
       from_ := reparseFrom T q.from_, where_ := q.where_.map (reparse T), groupBy := q.groupBy.map (reparse T),
-      aggs := q.aggs.map (fun a => { a with arg := reparse T a.arg }), items := q.items.map (·.map (reparse T)) }
+      aggs := q.aggs.map (fun a => { a with arg := reparse T a.arg }), items := q.items.map (·.map (reparse T)),
+      having := q.having.map (reparse T) }
   | .insert t rows => .insert t (rows.map (·.map (reparse T)))
   | .update t sets w => .update t (sets.map (fun s => (s.1, reparse T s.2))) (w.map (reparse T))
   | .delete t w => .delete t (w.map (reparse T))
@@ -140,6 +170,31 @@ def shippedParserTable (flags : List String) : Option Parser.Table :=
 
 /-! ### reading -/
 
+/-! ### DOUBLE values travel as `f<bits>` (IEEE-754 bit pattern, decimal); the model keeps their order key.
+    Only integer arithmetic on the bit pattern is used. -/
+
+def two63 : Nat := 9223372036854775808
+
+def dblKeyOfBits (b : Nat) : Int := if b < two63 then (b : Int) else -(((b - two63 : Nat)) : Int)
+
+def dblBitsOfKey (k : Int) : Nat := if k ≥ 0 then k.toNat else two63 + (-k).toNat
+
+/-- the integer a double holds, if it holds one (of magnitude below 2^62): the harness prints such doubles as integers -/
+def dblInteger? (bits : Nat) : Option Int :=
+  let neg := decide (bits ≥ two63)
+  let mag := bits % two63
+  let e := mag / 2 ^ 52
+  let m := 2 ^ 52 + mag % 2 ^ 52
+  let signed : Nat → Int := fun n => if neg then -(n : Int) else (n : Int)
+  if mag == 0 then some 0
+  else if e == 0 || e == 2047 then none
+  else if e ≥ 1075 then
+    if e - 1075 ≥ 10 then none else some (signed (m * 2 ^ (e - 1075)))
+  else
+    let sh := 1075 - e
+    if sh > 52 then none
+    else if m % 2 ^ sh == 0 then some (signed (m / 2 ^ sh)) else none
+
 def valOfWord (w : String) : Option Value :=
   match w.toList with
   | ['n'] => some .null
@@ -147,6 +202,7 @@ def valOfWord (w : String) : Option Value :=
   | ['b', '1'] => some (.bool true)
   | 'i' :: rest => (String.ofList rest).toInt?.map .int
   | 't' :: rest => (bytesOfHex (String.ofList rest)).map (fun bs => .text (bs.map (·.toNat)))
+  | 'f' :: rest => (String.ofList rest).toNat?.map (fun b => .dbl (dblKeyOfBits b))
   | _ => none
 
 def allSome {α} : List (Option α) → Option (List α)
@@ -155,7 +211,7 @@ def allSome {α} : List (Option α) → Option (List α)
   | some a :: r => (allSome r).map (a :: ·)
 
 def tyOfChar : Char → Option Ty
-  | 'I' => some .int | 'B' => some .bigint | 'O' => some .bool | 'S' => some .text
+  | 'I' => some .int | 'B' => some .bigint | 'O' => some .bool | 'S' => some .text | 'D' => some .double
   | _ => none
 
 def parseTable (w : String) : Option TableDef :=
@@ -212,15 +268,33 @@ def pExpr : Nat → P Expr
     | "nlike" => (pExpr fuel ws).bind fun (a, r) => (pExpr fuel r).map fun (b, r) => (.like true a b, r)
     | "isnull" => (pExpr fuel ws).map fun (a, r) => (.isNull false a, r)
     | "notnull" => (pExpr fuel ws).map fun (a, r) => (.isNull true a, r)
+    | "upper" => (pExpr fuel ws).map fun (a, r) => (.strFn .upper a, r)
+    | "lower" => (pExpr fuel ws).map fun (a, r) => (.strFn .lower a, r)
+    | "length" => (pExpr fuel ws).map fun (a, r) => (.strFn .length a, r)
+    | "ltrim" => (pExpr fuel ws).map fun (a, r) => (.strFn .ltrim a, r)
+    | "rtrim" => (pExpr fuel ws).map fun (a, r) => (.strFn .rtrim a, r)
+    | "cat" => (pExpr fuel ws).bind fun (a, r) => (pExpr fuel r).map fun (b, r) => (.concat a b, r)
     | "btw" => (pExpr fuel ws).bind fun (a, r) => (pExpr fuel r).bind fun (b, r) =>
         (pExpr fuel r).map fun (c, r) => (.between false a b c, r)
     | "nbtw" => (pExpr fuel ws).bind fun (a, r) => (pExpr fuel r).bind fun (b, r) =>
         (pExpr fuel r).map fun (c, r) => (.between true a b c, r)
     | _ =>
+      match numAfter "casex" w, numAfter "case" w with
+      | some k, _ => (pExpr fuel ws).bind fun (x, r) => (pExprs fuel (2 * k) r).bind fun (ps, r) =>
+          (pElse fuel r).map fun (e, r) => (.caseOf x (ps ++ [e]), r)
+      | none, some k => (pExprs fuel (2 * k) ws).bind fun (ps, r) =>
+          (pElse fuel r).map fun (e, r) => (.caseWhen (ps ++ [e]), r)
+      | none, none =>
       match numAfter "nin" w, numAfter "in" w with
       | some k, _ => (pExpr fuel ws).bind fun (a, r) => (pExprs fuel k r).map fun (xs, r) => (.inList true a xs, r)
       | none, some k => (pExpr fuel ws).bind fun (a, r) => (pExprs fuel k r).map fun (xs, r) => (.inList false a xs, r)
       | none, none => none
+
+def pElse : Nat → P Expr
+  | 0, _ => none
+  | _, "noelse" :: ws => some (.lit .null, ws)
+  | fuel + 1, "else" :: ws => pExpr fuel ws
+  | _, _ => none
 
 def pExprs : Nat → Nat → P (List Expr)
   | 0, _, _ => none
@@ -238,6 +312,11 @@ def pOn (fuel : Nat) : P (Option Expr)
   | "on" :: ws => (pExpr fuel ws).map fun (e, r) => (some e, r)
   | _ => none
 
+def pWhere (fuel : Nat) : P (Option Expr)
+  | "-" :: ws => some (none, ws)
+  | "w" :: ws => (pExpr fuel ws).map fun (e, r) => (some e, r)
+  | _ => none
+
 def pFrom : Nat → P From
   | 0, _ => none
   | _, [] => none
@@ -250,12 +329,12 @@ def pFrom : Nat → P From
         | some k => (pFrom fuel ws).bind fun (l, r) => (pFrom fuel r).bind fun (rr, r) =>
             (pOn (fuel + 1) r).map fun (on, r) => (.join k l rr on, r)
       | [] => none
+    else if w == "d" then
+      (pFrom fuel ws).bind fun (f, r) => (pWhere (fuel + 1) r).bind fun (wh, r) =>
+        match r with
+        | p :: r => (numAfter "p" p).bind fun np => (pExprs (fuel + 1) np r).map fun (es, r) => (.derived f wh es, r)
+        | [] => none
     else (numAfter "t" w).map fun t => (.table t, ws)
-
-def pWhere (fuel : Nat) : P (Option Expr)
-  | "-" :: ws => some (none, ws)
-  | "w" :: ws => (pExpr fuel ws).map fun (e, r) => (some e, r)
-  | _ => none
 
 def pAgg (fuel : Nat) : P Agg
   | "cnt*" :: ws => some ({ fn := .countStar, arg := .lit .null }, ws)
@@ -264,6 +343,11 @@ def pAgg (fuel : Nat) : P Agg
   | "avg" :: ws => (pExpr fuel ws).map fun (e, r) => ({ fn := .avg, arg := e }, r)
   | "min" :: ws => (pExpr fuel ws).map fun (e, r) => ({ fn := .min, arg := e }, r)
   | "max" :: ws => (pExpr fuel ws).map fun (e, r) => ({ fn := .max, arg := e }, r)
+  | "cntd" :: ws => (pExpr fuel ws).map fun (e, r) => ({ fn := .count, arg := e, distinct := true }, r)
+  | "sumd" :: ws => (pExpr fuel ws).map fun (e, r) => ({ fn := .sum, arg := e, distinct := true }, r)
+  | "avgd" :: ws => (pExpr fuel ws).map fun (e, r) => ({ fn := .avg, arg := e, distinct := true }, r)
+  | "mind" :: ws => (pExpr fuel ws).map fun (e, r) => ({ fn := .min, arg := e, distinct := true }, r)
+  | "maxd" :: ws => (pExpr fuel ws).map fun (e, r) => ({ fn := .max, arg := e, distinct := true }, r)
   | _ => none
 
 def pMany {α} (p : P α) : Nat → P (List α)
@@ -282,6 +366,10 @@ def pOptNat (pre : String) : P (Option Nat)
   | w :: ws =>
     if w == pre ++ "-" then some (none, ws) else (numAfter pre w).map fun n => (some n, ws)
   | [] => none
+
+def pHaving (fuel : Nat) : P (Option Expr)
+  | "hv" :: ws => (pExpr fuel ws).map fun (e, r) => (some e, r)
+  | ws => some (none, ws)
 
 def pItems (fuel : Nat) : P (Option (List Expr))
   | "star" :: r => some (none, r)
@@ -304,6 +392,7 @@ def pSelect (fuel : Nat) : P Select
       | a :: r =>
         (numAfter "a" a).bind fun na =>
         (pMany (pAgg fuel) na r).bind fun (aggs, r) =>
+        (pHaving fuel r).bind fun (hv, r) =>
         (pItems fuel r).bind fun (items, r) =>
         match r with
         | o :: r =>
@@ -311,7 +400,7 @@ def pSelect (fuel : Nat) : P Select
           (pMany pOrd no r).bind fun (ord, r) =>
           (pOptNat "lim" r).bind fun (lim, r) =>
           (pOptNat "off" r).map fun (off, r) =>
-            ({ distinct := distinct, from_ := f, where_ := w, groupBy := keys, aggs := aggs, items := items,
+            ({ distinct := distinct, from_ := f, where_ := w, groupBy := keys, aggs := aggs, items := items, having := hv,
                orderBy := ord, limit := lim, offset := off }, r)
         | [] => none
       | [] => none
@@ -369,6 +458,10 @@ def showVal : Value → String
   | .rat n d =>
     if d != 0 && n % (d : Int) == 0 then s!"i{n / (d : Int)}"
     else s!"f{natOfBits (Float.ofInt n / Float.ofNat d)}"
+  | .dbl k =>
+    match dblInteger? (dblBitsOfKey k) with
+    | some i => s!"i{i}"
+    | none => s!"f{dblBitsOfKey k}"
 
 def showRow (r : Row) : String := joinWith "," (r.map showVal)
 
